@@ -101,7 +101,7 @@ SplitStr(s, sep) ==
     IF i = 0 THEN <<s>> ELSE <<SubSeq(s, 1, i - 1)>> \o SplitStr(SubSeq(s, i + Len(sep), Len(s)), sep)
 
 SlashNorm(s) ==                               \* base.py slashnormalize
-    LET a == IF Len(s) > 0 /\ T!Last1(s) = "/" THEN SubSeq(s, 1, Len(s) - 1) ELSE s
+    LET a == T!RStripSet(s, {"/"})    \* selector.rstrip("/") since fix 5eb47a4 (one slash only before)
     IN IF Len(a) = 0 \/ T!Ch(a, 1) # "/" THEN "/" \o a ELSE a
 
 HexVal(h) ==                                  \* the escapes of the request alphabet ("" = not one of them)
